@@ -772,6 +772,10 @@ fn scenarios(tier: Tier) -> Vec<Scenario> {
     let persist = |files: Vec<FileSpec>| Scenario { family: "inject-persist".into(), sessions: vec![SessionSpec::seq(files)] };
     v.push(persist(vec![f(&[0, 1, 2], 0), f(&[3, 4], 0)]));
     v.push(persist(vec![f(&[0, 1, 2], 0), f(&[3, 4, 5], 0), f(&[6], 0)]));
+    // the files that remain leave nothing for the final aggregated xorb: a repeat of chunks whose xorb was cut
+    // (and may have failed) mid-file, and an empty file
+    v.push(persist(vec![f(&[0, 1, 2, 3, 4], 0), f(&[0, 1], 0)]));
+    v.push(persist(vec![f(&[0, 1, 2, 3, 4], 0), f(&[], 0)]));
     // global dedup: second session on a fresh local shard cache against the same store
     let gd = |s1: Vec<FileSpec>, s2: Vec<FileSpec>| Scenario { family: "inject-gd".into(), sessions: vec![SessionSpec::seq(s1), SessionSpec::seq(s2)] };
     v.push(gd(vec![f(&[0, 1, 2, 3], 0)], vec![f(&[0, 1, 2, 3], 0)]));
